@@ -4,26 +4,34 @@ use crate::*;
 
 
 pub(crate) fn impl_sqrt(n: &BigUint, scale: i64, ctx: &Context) -> BigDecimal {
-    // Calculate the number of digits and the difference compared to the scale
+    // Calculate the number of digits of the integer
     let num_digits = count_decimal_digits_uint(n);
-    let scale_diff = BigInt::from(num_digits) - scale;
 
     // Calculate the number of wanted digits and the exponent we need to raise the original value to
     // We want twice as many digits as the precision because sqrt halves the number of digits
-    // We add an extra one for rounding purposes
+    // We add extra ones for rounding purposes
     let prec = ctx.precision().get();
     let extra_rounding_digit_count = 5;
     let wanted_digits = 2 * (prec + extra_rounding_digit_count);
-    let exponent = wanted_digits.saturating_sub(num_digits) + u64::from(scale_diff.is_odd());
-    let sqrt_digits = (n * ten_to_the_uint(exponent)).sqrt();
+    let base_exponent = wanted_digits.saturating_sub(num_digits);
 
-    // Calculate the scale of the result
-    let result_scale_digits = 2 * (2 * prec - scale_diff) - 1;
-    let result_scale_decimal: BigDecimal = BigDecimal::new(result_scale_digits, 0) / 4.0;
-    let mut result_scale = result_scale_decimal.with_scale_round(0, RoundingMode::HalfEven).int_val;
+    // the scale of the shifted value must be even for its root to have an integer scale
+    let shifted_scale = BigInt::from(base_exponent) + scale;
+    let exponent = base_exponent + u64::from(shifted_scale.is_odd());
+    let shifted_digits = n * ten_to_the_uint(exponent);
+    let mut sqrt_digits = shifted_digits.sqrt();
+
+    // The scale of the root is half the (even) scale of the shifted value
+    let mut result_scale: BigInt = (BigInt::from(exponent) + scale) / 2;
+
+    // If the integer root is not exact, digits of the true root follow below the ones we have:
+    // record that in a sticky digit, so the rounding sees neither a tie nor an exact value
+    if &sqrt_digits * &sqrt_digits != shifted_digits {
+        sqrt_digits = sqrt_digits * 10u8 + 1u8;
+        result_scale += 1;
+    }
 
     // Round the value so it has the correct precision requested
-    result_scale += count_decimal_digits_uint(&sqrt_digits).saturating_sub(prec);
     let unrounded_result = BigDecimal::new(sqrt_digits.into(), result_scale.to_i64().unwrap());
     unrounded_result.with_precision_round(ctx.precision(), ctx.rounding_mode())
 }
